@@ -6,7 +6,7 @@
    any schedule of concurrent callers; [exec] runs it from the empty cache,
    [trace] pairs every step with its result. *)
 From Coq Require Import List ZArith NArith Bool Lia.
-From Verif Require Import C12.Model C12.Proofs.
+From Verif Require Import C12.Model C12.Proofs C12.ModelConc C12.ProofsConc.
 Import ListNotations.
 Open Scope Z_scope.
 
@@ -225,6 +225,79 @@ Example C12_join_ambiguous :
   let ps2 := [([97], [49]); ([98], [50])] in               (* a = "1", b = "2" *)
   joined paths ps1 = joined paths ps2 /\ selected paths ps1 <> selected paths ps2.
 Proof. vm_compute. split; [reflexivity|discriminate]. Qed.
+
+(* [clean_pair] is decidable: [clean_pairb] (ProofsConc.v) is what the
+   harness' monitor computes on the selected pairs of a request. *)
+Theorem C12_clean_pair_decidable :
+  forall nv, clean_pairb nv = true <-> clean_pair nv.
+Proof. exact clean_pairb_spec. Qed.
+Print Assumptions C12_clean_pair_decidable.
+
+(* F-C12d (open).  The property text says "same selected path-parameter
+   values"; without the cleanliness condition that is FALSE of the code, for
+   every hash function, even a perfect one: *)
+Definition C12_caching_same_selected_values_full : Prop :=
+  forall (H : Type) (hash : str -> H) (heq : H -> H -> bool),
+  (forall a b, heq a b = true <-> a = b) ->
+  (forall a b, hash a = hash b -> a = b) ->
+  forall conf (h : list cop) m u ps now vid,
+  snd (cstep H hash heq conf (cexec H hash heq conf empty h) (CReq m u ps now)) = CEarly vid ->
+  exists id ps' v t,
+    In (CResp id m u ps' v t) h /\ r_vid v = vid /\
+    selected (c_paths conf) ps' = selected (c_paths conf) ps.
+
+Theorem C12_caching_same_selected_values_full_refuted :
+  ~ C12_caching_same_selected_values_full.
+Proof.
+  intros A.
+  pose (conf := {| c_paths := [(true, [97]); (true, [98])]; c_ttl := 10; c_maxrec := 50; c_max := 4000 |}).
+  pose (v := {| r_vid := 1; r_idlen := 6%N; r_bodylen := 30%N; r_hdrlen := 20%N |}).
+  specialize (A str (fun s => s) str_eqb str_eqb_spec (fun a b E => E) conf
+                [CResp 0 [71] [117] [([97], [49; 46; 98; 58; 50])] v 100]
+                [71] [117] [([97], [49]); ([98], [50])] 105 1 eq_refl).
+  destruct A as (id & ps' & v' & t & I & _ & E).
+  destruct I as [I|[]]. injection I as _ <- _ _. vm_compute in E. discriminate.
+Qed.
+Print Assumptions C12_caching_same_selected_values_full_refuted.
+
+(* ... and it holds outside F-C12d: when the selected pairs of the request and
+   of the replayed response are clean (decidable; exactly the classifier of
+   the monitor's signature wrong-key-hit:caching-join-ambiguous). *)
+Theorem C12_caching_same_selected_values_holds_outside_join_ambiguity :
+  forall (H : Type) (hash : str -> H) (heq : H -> H -> bool),
+  (forall a b, heq a b = true <-> a = b) ->
+  (forall a b, hash a = hash b -> a = b) ->
+  forall conf (h : list cop) m u ps now vid,
+  snd (cstep H hash heq conf (cexec H hash heq conf empty h) (CReq m u ps now)) = CEarly vid ->
+  exists id ps' v t,
+    In (CResp id m u ps' v t) h /\ r_vid v = vid /\
+    now <= t + c_ttl conf /\
+    (forallb clean_pairb (selected (c_paths conf) ps) &&
+     forallb clean_pairb (selected (c_paths conf) ps') = true ->
+     selected (c_paths conf) ps' = selected (c_paths conf) ps).
+Proof.
+  intros H hash heq S I conf h m u ps now vid E.
+  destruct (C12_caching_replay_same_request_fresh H hash heq S I conf h m u ps now vid E)
+    as (id & ps' & v & t & A & B & _ & D & _ & F).
+  exists id, ps', v, t. repeat split; try assumption.
+  intros Cl. apply andb_true_iff in Cl. destruct Cl as (C1 & C2).
+  apply F; apply clean_all_spec; assumption.
+Qed.
+Print Assumptions C12_caching_same_selected_values_holds_outside_join_ambiguity.
+
+(* Plugin-level "afterwards the request goes to the provider again": once
+   t + ttl < now for every OnResponse given for this method, URL and hashed
+   string, OnRequest answers NoOp -- whatever sleepers did. *)
+Theorem C12_caching_miss_after_expiry :
+  forall (H : Type) (hash : str -> H) (heq : H -> H -> bool),
+  (forall a b, heq a b = true <-> a = b) ->
+  (forall a b, hash a = hash b -> a = b) ->
+  forall conf (h : list cop) m u ps now,
+  (forall id ps' v t, In (CResp id m u ps' v t) h ->
+     joined (c_paths conf) ps' = joined (c_paths conf) ps -> t + c_ttl conf < now) ->
+  snd (cstep H hash heq conf (cexec H hash heq conf empty h) (CReq m u ps now)) = CNoOp.
+Proof. intros H hash heq S I. exact (caching_miss_after_expiry H hash heq S I). Qed.
+Print Assumptions C12_caching_miss_after_expiry.
 
 (* The plugin's cache obeys the size bound (bytes) in every history. *)
 Theorem C12_caching_size_bound :
